@@ -5,7 +5,6 @@ import (
 	"encoding/gob"
 	"fmt"
 	"time"
-	"unsafe"
 
 	"github.com/valyala/fastjson"
 )
@@ -245,10 +244,9 @@ func ToTombstone(it Item) (*Tombstone, error) {
 		return i, nil
 	case Tombstone:
 		return &i, nil
-	case *Object:
-		return (*Tombstone)(unsafe.Pointer(i)), nil
-	case Object:
-		return (*Tombstone)(unsafe.Pointer(&i)), nil
+	case *Object, Object:
+		// NOTE: a Tombstone is larger than an Object, a view of one as the other would reach past its end
+		return nil, ErrorInvalidType[Tombstone](it)
 	default:
 		return reflectItemToType[Tombstone](it)
 	}
